@@ -478,6 +478,62 @@ def file_cases(ctx, out, per_scheme, n_lines):
                                                   "lines": c["lines"]})
 
 
+def eval_aliasing(ann, line, other_line):
+    """Parse `line`, change in place every mutable value the parsed record hands out (lists: append / clear), then parse
+    `line` and `other_line` again: every field must still carry the value its text denotes (= what the first parse gave,
+    before the edit).  A record's values belong to that record."""
+    from maflib.record import MafRecord
+    from maflib.validation import ValidationStringency as VS
+    from ..common import enc_val
+    sch = impl.scheme_by_annotation(ann)
+    names = sch.column_names()
+
+    def parse(l):
+        return MafRecord.from_line(l, scheme=sch, validation_stringency=VS.Silent)
+    first, other0 = parse(line), parse(other_line)
+    want = [None if c is None else enc_val(c.value) for c in (first[n] for n in names)]
+    want_other = [None if c is None else enc_val(c.value) for c in (other0[n] for n in names)]
+    touched = []
+    for n in names:
+        c = first[n]
+        if c is not None and isinstance(c.value, list):
+            c.value.append("flagged")
+            touched.append(n)
+    fails = []
+    for what, l, w in (("the same line", line, want), ("a later line", other_line, want_other)):
+        again = parse(l)
+        for k, n in enumerate(names):
+            c = again[n]
+            got = None if c is None else enc_val(c.value)
+            if got != w[k]:
+                fails.append({"what": "after a parsed record's list values were changed in place, parsing %s binds column %s to %s instead of the value its text %r denotes (%s)" % (
+                    what, n, got, l.split("\t")[k], w[k]), "kind": "aliasing", "scheme": ann, "line": line, "other_line": other_line, "column": n, "edited": touched})
+                break
+        if fails:
+            break
+    # undo (the objects may be shared when the property is broken; keep later cases independent of this one)
+    for n in touched:
+        c = first[n]
+        if c is not None and isinstance(c.value, list) and "flagged" in c.value:
+            c.value.remove("flagged")
+    return touched, fails
+
+
+def aliasing_cases(ctx, out):
+    rng = ctx.rng("aliasing")
+    anns = impl.builtin_annotations()
+    for _ in range(ctx.scale(10, 80)):
+        ann = rng.choice(anns)
+        line = "\t".join(colcases.valid_fields(ann, rng, prefer_nonnull=rng.choice([0.0, 0.3, 0.9])))
+        other = "\t".join(colcases.valid_fields(ann, rng, prefer_nonnull=rng.choice([0.0, 0.5])))
+        out.evaluations += 1
+        touched, fails = eval_aliasing(ann, line, other)
+        out.failures += fails
+        out.distribution["aliasing: parse, edit lists in place, parse again"] += 1
+        if touched:
+            out.nontrivial.add(("aliasing", ann, line))
+
+
 def run(ctx):
     out = Outcome()
     out.rule = ("type-directed field pools per distinct column class (by MRO) + whole lines (valid, 1-3 perturbed fields, wrong counts) "
@@ -489,6 +545,7 @@ def run(ctx):
     field_cases(ctx, out, per_sig_uses=ctx.scale(1, 4))
     line_cases(ctx, out, per_scheme=ctx.scale(12, 150))
     file_cases(ctx, out, per_scheme=ctx.scale(1, 6), n_lines=ctx.scale(4, 6))
+    aliasing_cases(ctx, out)
     return out
 
 
@@ -533,6 +590,12 @@ def replay_case(ctx, failure):
     """Re-evaluate the stored failing input on the current implementation; the failures it produces now
     ([] = the property holds on it; None = the stored failure lacks the inputs: regenerate from the seed)."""
     f = failure
+    if f.get("kind") == "aliasing" and all(k in f for k in ("scheme", "line", "other_line")):
+        touched, fails = eval_aliasing(f["scheme"], f["line"], f["other_line"])
+        print("replay C01: MafRecord.from_line under %s; the list values of columns %s of the parsed record changed in place (append); the same line and a later line parsed again" % (f["scheme"], touched))
+        for x in fails:
+            print("  oracle: %s" % x["what"])
+        return fails
     if f.get("kind") == "layout":
         ann = f.get("annotation")
         if ann is None:
